@@ -50,6 +50,25 @@ def coherent_rows(t, like, u, x, logl, blobs, where, need_u=True, recompute=Fals
             j = int(np.where(np.any(B.reshape(n, -1) != x.reshape(n, -1), axis=1))[0][0]) if B.shape == x.shape else 0
             bad.append(("blob-of-other-record", f"{where}: row {j}: the likelihood returns its argument as the blob, stored blob {B[j] if B.shape == x.shape else B.shape} "
                         f"but stored x {x[j]}"))
+    if blobs is not None and like.mode in ("blobsI", "blobsS"):
+        B = np.asarray(blobs)
+        want = np.dtype("int64") if like.mode == "blobsI" else np.dtype("object")
+        if B.dtype != want:
+            bad.append(("blob-type", f"{where}: blobs configured as {want} are stored as {B.dtype}"))
+        for j in range(n):
+            try:
+                v = np.ravel(B[j])[0]
+                bid = int(v) - 2 ** 53 if like.mode == "blobsI" else int(str(v).split("-")[1])
+            except Exception:
+                bad.append(("blob-type", f"{where}: blob row {j} = {blobs[j]!r}"))
+                break
+            rec = like.by_id.get(bid)
+            if rec is None:
+                bad.append(("blob-unknown", f"{where}: row {j}: blob {v!r} was never issued"))
+                break
+            if rec[0] != np.ascontiguousarray(x[j]).tobytes() or rec[1] != float(logl[j]):
+                bad.append(("blob-of-other-record", f"{where}: row {j}: blob {v!r} belongs to the evaluation at another point (logL {rec[1]!r} vs stored {float(logl[j])!r})"))
+                break
     if blobs is not None and like.mode in ("blobs", "blobs2", "blobs3"):
         for j in range(n):
             try:
